@@ -22,6 +22,26 @@ func (p *toks) env() map[string]interface{} {
 	return m
 }
 
+// envSnapshot renders a fill-in table (keys, Go types, values; item values by identity and
+// content) so that a producer writing to its argument is observed.
+func envSnapshot(env map[string]interface{}) string {
+	keys := make([]string, 0, len(env))
+	for k := range env {
+		keys = append(keys, k)
+	}
+	sort.Strings(keys)
+	var sb strings.Builder
+	for _, k := range keys {
+		v := env[k]
+		if it, ok := v.(ast.ItemNode); ok {
+			fmt.Fprintf(&sb, "%q=%p:%s;", k, it, showItem(it))
+		} else {
+			fmt.Fprintf(&sb, "%q=%T:%v;", k, v, v)
+		}
+	}
+	return sb.String()
+}
+
 func implFillItem(t []string) string {
 	steps := splitSteps(t)
 	p := &toks{t: steps[0]}
@@ -44,12 +64,18 @@ func implFillItem(t []string) string {
 			continue
 		}
 		var next ast.ItemNode
-		if pan, _ := safely(func() { next = cur.FillVariables(env) }); pan {
-			outs = append(outs, "PANIC")
+		before := envSnapshot(env)
+		pan, _ := safely(func() { next = cur.FillVariables(env) })
+		mut := ""
+		if envSnapshot(env) != before {
+			mut = " ARGMUT" // the caller's fill-in table was written to
+		}
+		if pan {
+			outs = append(outs, "PANIC"+mut)
 			continue
 		}
 		cur = next
-		outs = append(outs, showItem(cur))
+		outs = append(outs, showItem(cur)+mut)
 	}
 	return strings.Join(outs, " | ")
 }
@@ -63,6 +89,7 @@ type FillVal struct {
 	Slot *Slot // nil: no direct-construction equivalent (wrong type, rename, ...)
 	Str  []byte
 	IsA  bool // value for an ASCII variable (replaces the node by an A node)
+	Open []varRef // variables of a fill-in item that is itself a template
 }
 
 func genFillVal(r *rand.Rand, n *Node, pbad float64, names *nameGen) FillVal {
@@ -107,7 +134,9 @@ func genFillVal(r *rand.Rand, n *Node, pbad float64, names *nameGen) FillVal {
 			return FillVal{Tok: fmt.Sprintf("f32:%d", b), Slot: &Slot{Bits: b}}
 		}
 		b := genFloatBits(r, 8, bad)
-		if n.W == 4 && !bad && r.Intn(4) > 0 {
+		if n.W == 4 && r.Intn(6) == 0 {
+			b = f64Edge[r.Intn(len(f64Edge))] // around MaxFloat32 and the smallest subnormal
+		} else if n.W == 4 && !bad && r.Intn(4) > 0 {
 			b = math.Float64bits(float64(math.Float32frombits(uint32(genFloatBits(r, 4, false)))))
 		}
 		if n.W == 8 {
@@ -157,9 +186,15 @@ func genFillVal(r *rand.Rand, n *Node, pbad float64, names *nameGen) FillVal {
 		}
 		return fv
 	}
-	// a list's own variable: a closed item
-	child := genNode(r, &GenOpt{MaxDepth: 2, MaxSlots: 3, names: names}, 1)
-	return FillVal{Tok: "t " + child.Proto(), Slot: &Slot{Child: child}}
+	// a list's own variable: an item, closed or (two times in five) itself a template
+	co := &GenOpt{MaxDepth: 2, MaxSlots: 3, names: names}
+	if r.Intn(5) < 2 {
+		co.PVar = 0.5
+	}
+	child := genNode(r, co, 1)
+	fv := FillVal{Tok: "t " + child.Proto(), Slot: &Slot{Child: child}}
+	collectVars(child, &fv.Open)
+	return fv
 }
 
 type varRef struct {
@@ -314,6 +349,19 @@ func suiteC09(c *Ctx) []Suite {
 					asg[v.name] = genFillVal(c.R, v.node, pbad, names)
 					keys = append(keys, v.name)
 				}
+				// keys naming the variables of a fill-in item are unknown to the template: the
+				// item is inserted as it is (substitution is simultaneous)
+				open := false
+				for _, k := range append([]string{}, keys...) {
+					for _, iv := range asg[k].Open {
+						open = true
+						if c.R.Intn(5) < 3 {
+							asg[iv.name] = genFillVal(c.R, iv.node, 0, names)
+							asg[iv.name] = FillVal{Tok: asg[iv.name].Tok}
+							keys = append(keys, iv.name)
+						}
+					}
+				}
 				// unknown keys are ignored
 				if c.R.Intn(3) == 0 {
 					k := "unknown_" + fmt.Sprint(i)
@@ -334,7 +382,7 @@ func suiteC09(c *Ctx) []Suite {
 				}
 				out = append(out, cs)
 				// oracle 2: filling in several steps = filling once (values are closed here)
-				if len(keys) >= 2 && pbad == 0 {
+				if len(keys) >= 2 && pbad == 0 && !open {
 					k := 2 + c.R.Intn(3)
 					if k > len(keys) {
 						k = len(keys)
@@ -377,7 +425,11 @@ func suiteC09(c *Ctx) []Suite {
 				asg := map[string]FillVal{}
 				var keys []string
 				for _, v := range vars {
-					asg[v.name] = genFillVal(c.R, v.node, 0, names)
+					fv := genFillVal(c.R, v.node, 0, names)
+					for len(fv.Open) > 0 { // complete messages: closed fill-in items only
+						fv = genFillVal(c.R, v.node, 0, names)
+					}
+					asg[v.name] = fv
 					keys = append(keys, v.name)
 				}
 				m := completeMsgDesc(c.R, tmpl)
@@ -443,7 +495,16 @@ func genEllTemplate(r *rand.Rand, names *nameGen, depth, maxDepth int, ells *[]s
 		case x < 5:
 			n.Slots = append(n.Slots, Slot{IsVar: true, Name: names.fresh(r)})
 		case x < 7:
-			n.Slots = append(n.Slots, Slot{Child: &Node{Kind: "AV", Name: names.fresh(r), Min: r.Intn(3), Max: -1}})
+			av := &Node{Kind: "AV", Name: names.fresh(r), Min: r.Intn(3), Max: -1}
+			switch r.Intn(4) { // all four declaration forms: [a..], [n], [a..b], [..b]
+			case 1:
+				av.Max = av.Min
+			case 2:
+				av.Max = av.Min + 1 + r.Intn(4)
+			case 3:
+				av.Min, av.Max = 0, 1+r.Intn(5)
+			}
+			n.Slots = append(n.Slots, Slot{Child: av})
 		case x < 9:
 			k := arrayKinds[r.Intn(len(arrayKinds))]
 			n.Slots = append(n.Slots, Slot{Child: genArray(r, &GenOpt{MaxSlots: 3, PVar: 0.5, names: names}, k.k, k.w)})
@@ -509,8 +570,8 @@ func ellipsisOracle(tmpl *Node, asg map[string]int) string {
 	return ""
 }
 
-func suiteC10(c *Ctx) []Suite {
-	mk := func(c *Ctx, n int, maxDepth int, maxCount int) []Case {
+func ellipsisCases(c *Ctx, n int, maxDepth int, maxCount int) []Case {
+	{
 		var out []Case
 		for i := 0; i < n; i++ {
 			names := &nameGen{}
@@ -548,6 +609,10 @@ func suiteC10(c *Ctx) []Suite {
 		}
 		return out
 	}
+}
+
+func suiteC10(c *Ctx) []Suite {
+	mk := ellipsisCases
 	return []Suite{
 		{Name: "ellipsis/random", Gen: func(c *Ctx) []Case { return mk(c, c.N(3000), 3, 3) }},
 		{Name: "ellipsis/deep-and-large", Gen: func(c *Ctx) []Case { return mk(c, c.N(300), 5, 12) }},
